@@ -15,8 +15,10 @@ From CBI Require Import Lib.Res Lib.Data Lib.C09_glob Gen.C09_tables Model.C09.
 Import ListNotations.
 Local Open Scope string_scope.
 
+(* the segments as git reads them *)
+Definition pat_segs (p : apat) : list seg := if p_tail p then p_segs p ++ [SDStar] else p_segs p.
 Definition pat_hits (isdir : bool) (cs : list chars) (p : apat) : bool :=
-  implb (p_dir p) isdir && bm (p_segs p) cs.
+  implb (p_dir p) isdir && bm (pat_segs p) cs.
 
 (* decision at one level: Some true = excluded, Some false = re-included, None = not mentioned *)
 Definition level (ps : list apat) (cs : list chars) (isdir : bool) : option bool :=
@@ -102,12 +104,18 @@ Fixpoint dir_reneg (ps : list apat) (cs : list chars) : bool :=
   | p :: l => (is_filem_pos cs p && dirpos_then_dirneg l cs) || dir_reneg l cs
   end.
 
-(* which class (0 none, 1, 2) the resolved path r falls in *)
+(* class 3: a line ending in "/**/" is involved: pathspec reads "x/**/" as "x/" (it
+   then also excludes what lies directly in x), git as the directories strictly below x *)
+Definition tail_involved (ps : list apat) (cs : list chars) : bool :=
+  existsb (fun p => p_tail p && (touches cs p || existsb (fun d => pat_hits true d p) (sprefixes cs))) ps.
+
+(* which class (0 none, 1, 2, 3) the resolved path r falls in *)
 Definition class_of (cb : codebase) (r : path) : nat :=
   match find_root (cb_roots cb) r, compile true (cb_lines cb) with
   | Some root, CPats ps =>
       let cs := rel_comps root r in
-      if parent_reinclude ps cs then 1 else if dir_reneg ps cs then 2 else 0
+      if tail_involved ps cs then 3
+      else if parent_reinclude ps cs then 1 else if dir_reneg ps cs then 2 else 0
   | _, _ => 0
   end.
 
